@@ -41,6 +41,16 @@ typedef struct glyph_t glyph_t;
 #define N_GLYPHS_HIGH_WATER  (16384)
 #define N_GLYPHS_LOW_WATER   (8192)
 #define HASH_SIZE (2 * N_GLYPHS_HIGH_WATER)
+#if defined(PIXMAN_VERIF) && defined(PIXMAN_VERIF_GLYPH_HASH_SIZE)
+/* verification hook: small table sizes so that cache histories can be
+ * enumerated exhaustively; inactive unless both macros are defined */
+#undef N_GLYPHS_HIGH_WATER
+#undef N_GLYPHS_LOW_WATER
+#undef HASH_SIZE
+#define N_GLYPHS_HIGH_WATER  (PIXMAN_VERIF_GLYPH_HIGH_WATER)
+#define N_GLYPHS_LOW_WATER   (PIXMAN_VERIF_GLYPH_LOW_WATER)
+#define HASH_SIZE            (PIXMAN_VERIF_GLYPH_HASH_SIZE)
+#endif
 #define HASH_MASK (HASH_SIZE - 1)
 
 struct glyph_t
